@@ -1,6 +1,1206 @@
-//! C06 — stub (monitor not built yet).
-use crate::core::Ctx;
+//! C06 — RTR: after any completed exchange the client holds exactly the
+//! server's data.
+//!
+//! Workload: the real `Client` against the real `Server::run`, joined by
+//! in-memory duplex pipes with tiny buffers and a byte-level middlebox
+//! (`c06_net`), on a current-thread tokio runtime with the clock paused. The
+//! harness' `PayloadSource` (`c06_src`) keeps an immutable snapshot per
+//! (session, serial). Histories are random op sequences (updates, notifies,
+//! steps, reconnects with all kinds of initial client state, new sessions,
+//! serial jumps across the u32 wrap, updates while a response is suspended).
+//!
+//! Oracle (from the statement): after every `Client::step()` that returned
+//! `Ok`, replay the (action, payload) log the target was handed on the
+//! client's previous data (reset => start empty, announce inserts / replaces
+//! the ASPA of that customer, withdraw removes) and compare with the snapshot
+//! the source recorded for the (session, serial) in the End of Data PDU seen
+//! on the wire, restricted to the payload types of the version in that PDU;
+//! `Client::state()` must be that state; for version >= 1 the timing handed to
+//! `PayloadTarget::apply` must be the source's. Steps ending in `Err` assert
+//! nothing.
+
+use crate::c06_net::{Eod, Listener, Middlebox, ServerSock, TapLog};
+use crate::c06_src::{from_lib, render_item, Data, DiffStyle, Item, KeyK, OriginK, Snap, Source, StepObs, TimingT, Window};
+use crate::core::{panic_location, take_last_panic, Ctx, Rng, Stage, Tier};
+use rpki::rtr::client::{Client, PayloadError, PayloadTarget, PayloadUpdate};
+use rpki::rtr::payload::{Action, Payload, Timing};
+use rpki::rtr::server::{NotifySender, Server};
+use rpki::rtr::state::{Serial, State};
+use serde_json::{json, Value};
+use std::sync::{Arc, Mutex};
+use std::time::Duration;
+use tokio::io::DuplexStream;
+use tokio::sync::mpsc::{unbounded_channel, UnboundedSender};
+use tokio::task::JoinHandle;
+
+//------------ target --------------------------------------------------------
+
+pub struct Upd {
+    reset: bool,
+    items: Vec<(Action, Payload)>,
+}
+
+impl PayloadUpdate for Upd {
+    fn push_update(&mut self, action: Action, payload: Payload) -> Result<(), PayloadError> {
+        self.items.push((action, payload));
+        Ok(())
+    }
+}
+
+pub struct Applied {
+    reset: bool,
+    items: Vec<(Action, Payload)>,
+    timing: Timing,
+}
+
+#[derive(Default)]
+pub struct Target {
+    applied: Vec<Applied>,
+    starts: u32,
+}
+
+impl PayloadTarget for Target {
+    type Update = Upd;
+
+    fn start(&mut self, reset: bool) -> Upd {
+        self.starts += 1;
+        Upd { reset, items: Vec::new() }
+    }
+
+    fn apply(&mut self, update: Upd, timing: Timing) -> Result<(), PayloadError> {
+        self.applied.push(Applied { reset: update.reset, items: update.items, timing });
+        Ok(())
+    }
+}
+
+//------------ history description -------------------------------------------
+
+#[derive(Clone, Copy, Debug, PartialEq, Eq)]
+enum ConnKind {
+    KeepStateAndData,
+    StaleState,
+    ForeignSession,
+    NoState,
+}
+
+impl ConnKind {
+    fn name(self) -> &'static str {
+        match self {
+            ConnKind::KeepStateAndData => "keep",
+            ConnKind::StaleState => "stale",
+            ConnKind::ForeignSession => "foreign",
+            ConnKind::NoState => "nostate",
+        }
+    }
+}
+
+#[derive(Clone, Debug)]
+enum Op {
+    Update { changes: u8 },
+    Notify { settle: u8 },
+    Step,
+    Reconnect { kind: ConnKind, v_c: u8, cap: u8 },
+    NewSession { keep_data: bool },
+    SerialJump,
+    UpdateDuringResponse { yields: u8, notify: bool, changes: u8 },
+}
+
+impl Op {
+    fn kind(&self) -> &'static str {
+        match self {
+            Op::Update { .. } => "U",
+            Op::Notify { .. } => "N",
+            Op::Step => "S",
+            Op::Reconnect { .. } => "R",
+            Op::NewSession { .. } => "X",
+            Op::SerialJump => "J",
+            Op::UpdateDuringResponse { .. } => "D",
+        }
+    }
+}
+
+#[derive(Clone, Debug)]
+struct Cfg {
+    seed: u64,
+    v_c: u8,
+    cap: u8,
+    c_buf: usize,
+    s_buf: usize,
+    window: Window,
+    style: DiffStyle,
+    aspa_wd_with_providers: bool,
+    first_kind: ConnKind,
+    pre_updates: u8,
+    first_serial: u32,
+    first_session: u16,
+    /// reduced sizes for the slow instruments (Miri)
+    light: bool,
+    ops: Vec<Op>,
+}
+
+fn pick_version(rng: &mut Rng) -> u8 {
+    // version 2 most often (it carries every payload type)
+    match rng.below(6) {
+        0 => 0,
+        1 | 2 => 1,
+        _ => 2,
+    }
+}
+
+fn pick_cap(rng: &mut Rng) -> u8 {
+    match rng.below(5) {
+        0 => 0,
+        1 => 1,
+        _ => 2,
+    }
+}
+
+fn pick_conn_kind(rng: &mut Rng) -> ConnKind {
+    match rng.below(8) {
+        0..=2 => ConnKind::KeepStateAndData,
+        3 | 4 => ConnKind::StaleState,
+        5 => ConnKind::ForeignSession,
+        _ => ConnKind::NoState,
+    }
+}
+
+fn pick_buf(rng: &mut Rng) -> usize {
+    match rng.below(10) {
+        0 => 1,
+        1 => rng.range(2, 7) as usize,
+        2 => 8,
+        3 => rng.range(9, 15) as usize,
+        4 => 12,
+        5 => rng.range(16, 40) as usize,
+        6 => 20,
+        7 => rng.range(41, 200) as usize,
+        8 => 64,
+        _ => 4096,
+    }
+}
+
+fn pick_buf_light(rng: &mut Rng) -> usize {
+    *rng.pick(&[5usize, 8, 12, 20, 33, 64, 4096])
+}
+
+fn gen_cfg(seed: u64, max_ops: u64, light: bool) -> Cfg {
+    let mut rng = Rng::new(seed);
+    let window = match rng.below(6) {
+        0 => Window::Never,
+        1 => Window::Last(1),
+        2 => Window::Last(rng.range(2, 4) as usize),
+        _ => Window::Unbounded,
+    };
+    let style = match rng.below(4) {
+        0 => DiffStyle::AspaWithdrawFirst,
+        1 => DiffStyle::Concatenated,
+        _ => DiffStyle::Minimal,
+    };
+    let first_serial = match rng.below(8) {
+        0 => 0,
+        1 => u32::MAX - rng.below(4) as u32,
+        2 => 0x7FFF_FFFF - rng.below(3) as u32,
+        3 => 0x8000_0000 + rng.below(3) as u32,
+        4 => 1,
+        _ => rng.next_u32(),
+    };
+    let nops = rng.range(if light { 2 } else { 4 }, max_ops.max(4));
+    let mut ops = Vec::new();
+    for _ in 0..nops {
+        let op = match rng.below(100) {
+            0..=31 => Op::Step,
+            32..=54 => Op::Update { changes: rng.below(7) as u8 },
+            55..=67 => {
+                let yields = match rng.below(10) {
+                    0..=3 => rng.below(3),
+                    4..=6 => rng.range(3, 8),
+                    7 | 8 => rng.range(8, 24),
+                    _ => rng.range(24, 80),
+                } as u8;
+                Op::UpdateDuringResponse { yields, notify: rng.chance(1, 3), changes: rng.range(1, 6) as u8 }
+            }
+            68..=74 => Op::Notify { settle: rng.below(4) as u8 },
+            75..=86 => Op::Reconnect { kind: pick_conn_kind(&mut rng), v_c: pick_version(&mut rng), cap: pick_cap(&mut rng) },
+            87..=91 => Op::NewSession { keep_data: rng.bool() },
+            _ => Op::SerialJump,
+        };
+        ops.push(op);
+    }
+    // every history ends with a step so that the last updates are observed
+    ops.push(Op::Step);
+    Cfg {
+        seed,
+        v_c: pick_version(&mut rng),
+        cap: pick_cap(&mut rng),
+        c_buf: if light { pick_buf_light(&mut rng) } else { pick_buf(&mut rng) },
+        s_buf: if light { pick_buf_light(&mut rng) } else { pick_buf(&mut rng) },
+        window,
+        style,
+        aspa_wd_with_providers: rng.bool(),
+        first_kind: pick_conn_kind(&mut rng),
+        pre_updates: rng.below(4) as u8,
+        first_serial,
+        first_session: rng.next_u32() as u16,
+        light,
+        ops,
+    }
+}
+
+fn cfg_json(cfg: &Cfg) -> Value {
+    json!({
+        "history_seed": cfg.seed,
+        "client_initial_version": cfg.v_c,
+        "old_cache_cap": cfg.cap,
+        "client_pipe": cfg.c_buf,
+        "server_pipe": cfg.s_buf,
+        "diff_window": format!("{:?}", cfg.window),
+        "diff_style": format!("{:?}", cfg.style),
+        "aspa_withdraw_with_providers": cfg.aspa_wd_with_providers,
+        "first_connection": cfg.first_kind.name(),
+        "updates_before_first_connection": cfg.pre_updates,
+        "first_state": format!("{}:{}", cfg.first_session, cfg.first_serial),
+        "light": cfg.light,
+        "ops": cfg.ops.iter().map(|o| format!("{:?}", o)).collect::<Vec<_>>(),
+    })
+}
+
+//------------ payload universe ----------------------------------------------
+
+struct Universe {
+    origins: Vec<OriginK>,
+    keys: Vec<KeyK>,
+    customers: Vec<u32>,
+    providers: Vec<u32>,
+    light: bool,
+}
+
+fn pick_asn(rng: &mut Rng) -> u32 {
+    match rng.below(8) {
+        0 => 0,
+        1 => u32::MAX,
+        2 => 65_535,
+        3 => 65_536,
+        4 => 23_456,
+        _ => rng.next_u32(),
+    }
+}
+
+fn gen_universe(rng: &mut Rng, light: bool) -> Universe {
+    let mut origins: Vec<OriginK> = Vec::new();
+    for i in 0..7 {
+        let len = match i {
+            0 => 0,
+            1 => 32,
+            2 => 24,
+            _ => rng.range(1, 31) as u8,
+        };
+        let addr = if len == 0 { 0 } else { rng.next_u32() & (u32::MAX << (32 - len as u32)) };
+        let maxlen = match rng.below(3) {
+            0 => len,
+            1 => 32,
+            _ => rng.range(len as u64, 32) as u8,
+        };
+        origins.push((false, addr as u128, len, maxlen, pick_asn(rng)));
+    }
+    for i in 0..6 {
+        let len = match i {
+            0 => 0,
+            1 => 128,
+            2 => 96,
+            3 => 48,
+            _ => rng.range(1, 127) as u8,
+        };
+        let mut addr = if len == 0 { 0 } else { rng.next_u128() & (u128::MAX << (128 - len as u32)) };
+        if i == 2 {
+            addr = 0xffffu128 << 32; // ::ffff:0:0/96
+        }
+        let maxlen = match rng.below(3) {
+            0 => len,
+            1 => 128,
+            _ => rng.range(len as u64, 128) as u8,
+        };
+        origins.push((true, addr, len, maxlen, pick_asn(rng)));
+    }
+    // near-duplicates: same prefix, other max length or other asn
+    for _ in 0..4 {
+        let mut k = *rng.pick(&origins);
+        let fam_max = if k.0 { 128 } else { 32 };
+        if rng.bool() && k.2 < fam_max {
+            k.3 = if k.3 == fam_max { k.2 } else { k.3 + 1 };
+        } else {
+            k.4 = k.4.wrapping_add(1);
+        }
+        if !origins.contains(&k) {
+            origins.push(k);
+        }
+    }
+    let mut keys: Vec<KeyK> = Vec::new();
+    for i in 0..4 {
+        let mut ski = [0u8; 20];
+        ski.copy_from_slice(&rng.bytes(20));
+        let len = match i {
+            0 => 91,
+            1 => 0,
+            2 => 1,
+            _ => rng.range(2, 220) as usize,
+        };
+        keys.push((ski, pick_asn(rng), rng.bytes(len)));
+    }
+    let mut k = keys[0].clone();
+    k.1 = k.1.wrapping_add(1);
+    keys.push(k);
+    let mut k = keys[0].clone();
+    k.2[90] ^= 1;
+    keys.push(k);
+    let mut customers = vec![pick_asn(rng), rng.next_u32(), rng.next_u32(), 0, u32::MAX];
+    customers.sort();
+    customers.dedup();
+    let providers = (0..8).map(|_| pick_asn(rng)).collect();
+    Universe { origins, keys, customers, providers, light }
+}
+
+fn gen_providers(rng: &mut Rng, uni: &Universe) -> Vec<u32> {
+    let n = match rng.below(20) {
+        0 => 0,
+        1 if !uni.light => rng.range(50, 300),
+        _ => rng.range(1, 5),
+    };
+    (0..n).map(|_| if n > 8 { rng.next_u32() } else { *rng.pick(&uni.providers) }).collect()
+}
+
+fn toggle_origin(d: &mut Data, rng: &mut Rng, uni: &Universe) {
+    let k = *rng.pick(&uni.origins);
+    if !d.origins.remove(&k) {
+        d.origins.insert(k);
+    }
+}
+
+fn next_data(cur: &Data, changes: u8, rng: &mut Rng, uni: &Universe) -> Data {
+    let mut d = cur.clone();
+    match rng.below(24) {
+        0 => d = Data::default(),
+        1 => d.origins.clear(),
+        2 => d.aspas.clear(),
+        3 => d.keys.clear(),
+        4 if !uni.light => {
+            d.origins.extend(uni.origins.iter().copied());
+            d.keys.extend(uni.keys.iter().cloned());
+        }
+        _ => {}
+    }
+    for _ in 0..changes {
+        match rng.below(8) {
+            0 | 1 | 2 => toggle_origin(&mut d, rng, uni),
+            3 => {
+                let k = rng.pick(&uni.keys).clone();
+                if !d.keys.remove(&k) {
+                    d.keys.insert(k);
+                }
+            }
+            4 | 5 => {
+                let c = *rng.pick(&uni.customers);
+                if d.aspas.remove(&c).is_none() {
+                    d.aspas.insert(c, gen_providers(rng, uni));
+                }
+            }
+            6 => {
+                // provider change of an existing ASPA (or a new one)
+                let c = match d.aspas.keys().nth(rng.usize_below(d.aspas.len().max(1))) {
+                    Some(c) => *c,
+                    None => *rng.pick(&uni.customers),
+                };
+                let mut p = gen_providers(rng, uni);
+                if d.aspas.get(&c) == Some(&p) {
+                    p.push(1);
+                }
+                d.aspas.insert(c, p);
+            }
+            _ => {
+                // replace: one origin out, one in
+                if let Some(k) = d.origins.iter().nth(rng.usize_below(d.origins.len().max(1))).copied() {
+                    d.origins.remove(&k);
+                }
+                toggle_origin(&mut d, rng, uni);
+            }
+        }
+    }
+    d
+}
+
+fn gen_timing(rng: &mut Rng) -> TimingT {
+    match rng.below(12) {
+        0 => (0, 0, 0),
+        1 => (30_000_000, u32::MAX, u32::MAX),
+        2 => (3600, 600, 7200),
+        3 => (1, 1, 600),
+        4 => (86_400, 7200, 172_800),
+        _ => (rng.range(1, 86_400) as u32, rng.range(1, 7200) as u32, rng.range(600, 172_800) as u32),
+    }
+}
+
+//------------ driver --------------------------------------------------------
+
+struct Conn {
+    client: Client<DuplexStream, Target>,
+    tap: Arc<Mutex<TapLog>>,
+    mb: JoinHandle<()>,
+    kind: ConnKind,
+    v_c: u8,
+    cap: u8,
+    broken: bool,
+    ok_steps: u32,
+}
+
+/// Virtual-time guard around one step. The refresh values the source hands
+/// out stay below 30 000 000 s and the guard below tokio's timer wheel range
+/// (2^36 ms, about 795 days): timers beyond that range corrupt the wheel of
+/// tokio 1.52 under the paused clock (use after free at runtime shutdown),
+/// which is not the code under test.
+const STEP_GUARD: Duration = Duration::from_secs(40_000_000);
+
+struct Driver<'a> {
+    ctx: &'a mut Ctx,
+    cfg: &'a Cfg,
+    rng: Rng,
+    uni: Universe,
+    source: Source,
+    notify: NotifySender,
+    conn_tx: UnboundedSender<ServerSock>,
+    server_updates: Arc<Mutex<Vec<(u16, u32, bool)>>>,
+    conn: Option<Conn>,
+    /// the data the client holds according to everything it was handed
+    cdata: Data,
+    /// protocol version `cdata` belongs to
+    cdata_version: u8,
+    trace: Vec<String>,
+    since_step: Vec<&'static str>,
+    steps: u64,
+    ok_steps: u64,
+    aborted: u64,
+    wrapped: bool,
+    dead: bool,
+}
+
+enum StepResult {
+    Ok,
+    Err(String),
+    Stalled,
+}
+
+impl<'a> Driver<'a> {
+    fn state_str(s: Option<State>) -> String {
+        match s {
+            Some(s) => format!("{}:{}", s.session(), u32::from(s.serial())),
+            None => "none".into(),
+        }
+    }
+
+    fn new_snap(&mut self, data: Data, new_session: bool, jump: bool) -> Snap {
+        let cur = self.source.current();
+        let timing = if rng_keep(&mut self.rng) { cur.timing } else { gen_timing(&mut self.rng) };
+        let (session, mut serial) = if new_session {
+            let mut s = self.rng.next_u32() as u16;
+            while self.source.session_used(s) {
+                s = s.wrapping_add(1);
+            }
+            let serial = match self.rng.below(4) {
+                0 => cur.serial,
+                1 => 0,
+                2 => u32::MAX,
+                _ => self.rng.next_u32(),
+            };
+            (s, serial)
+        } else if jump {
+            let serial = match self.rng.below(4) {
+                0 => u32::MAX - self.rng.below(3) as u32,
+                1 => cur.serial.wrapping_add(0x7FFF_FFFF),
+                2 => cur.serial.wrapping_add(self.rng.range(2, 1000) as u32),
+                _ => cur.serial.wrapping_add(self.rng.range(2, 0x7FFF_FFFF) as u32),
+            };
+            (cur.session, serial)
+        } else {
+            (cur.session, cur.serial.wrapping_add(1))
+        };
+        while self.source.knows(session, serial) {
+            serial = serial.wrapping_add(1);
+        }
+        if !new_session && serial < cur.serial {
+            self.wrapped = true;
+        }
+        Snap::new(session, serial, timing, data, &mut self.rng)
+    }
+
+    fn describe_change(old: &Data, new: &Data) -> String {
+        let o = (new.origins.difference(&old.origins).count(), old.origins.difference(&new.origins).count());
+        let k = (new.keys.difference(&old.keys).count(), old.keys.difference(&new.keys).count());
+        let mut aa = 0;
+        let mut ar = 0;
+        let mut ac = 0;
+        for (c, p) in &new.aspas {
+            match old.aspas.get(c) {
+                None => aa += 1,
+                Some(q) if q != p => ac += 1,
+                _ => {}
+            }
+        }
+        for c in old.aspas.keys() {
+            if !new.aspas.contains_key(c) {
+                ar += 1;
+            }
+        }
+        format!("origins +{} -{}, keys +{} -{}, aspas +{} -{} ~{}", o.0, o.1, k.0, k.1, aa, ar, ac)
+    }
+
+    fn do_update(&mut self, changes: u8, new_session: bool, keep_data: bool, jump: bool) {
+        let cur = self.source.current();
+        let data = if keep_data { cur.data.clone() } else { next_data(&cur.data, changes, &mut self.rng, &self.uni) };
+        let what = Self::describe_change(&cur.data, &data);
+        let snap = self.new_snap(data, new_session, jump);
+        self.trace.push(format!(
+            "{} -> {}:{} ({}; {} items; timing {:?})",
+            if new_session { "new-session" } else if jump { "serial-jump" } else { "update" },
+            snap.session, snap.serial, what, snap.data.len(), snap.timing
+        ));
+        self.source.commit(snap, new_session);
+    }
+
+    fn junk(&mut self) -> Data {
+        match self.rng.below(3) {
+            0 => Data::default(),
+            1 => {
+                let all = self.source.all();
+                self.rng.pick(&all).data.clone()
+            }
+            _ => next_data(&Data::default(), 6, &mut self.rng, &self.uni),
+        }
+    }
+
+    async fn connect(&mut self, kind: ConnKind, v_c: u8, cap: u8) {
+        let neg = v_c.min(cap).min(2);
+        let prev: Option<Option<State>> = self.conn.take().map(|c| {
+            c.mb.abort();
+            c.client.state()
+        });
+        let (state, data): (Option<State>, Data) = match kind {
+            ConnKind::KeepStateAndData => match prev {
+                Some(Some(st)) => {
+                    if self.cdata_version == neg {
+                        (Some(st), self.cdata.clone())
+                    } else if let Some(snap) = self.source.lookup(st.session(), u32::from(st.serial())) {
+                        // the data belonging to a state depends on the version
+                        (Some(st), snap.data.restrict(neg))
+                    } else {
+                        (None, self.cdata.clone())
+                    }
+                }
+                Some(None) => (None, self.cdata.clone()),
+                None => {
+                    // a client that synchronised with this server earlier
+                    let cur = self.source.current();
+                    (Some(State::from_parts(cur.session, Serial::from(cur.serial))), cur.data.restrict(neg))
+                }
+            },
+            ConnKind::StaleState => {
+                let chain = self.source.chain();
+                let snap = self.rng.pick(&chain).clone();
+                (Some(State::from_parts(snap.session, Serial::from(snap.serial))), snap.data.restrict(neg))
+            }
+            ConnKind::ForeignSession => {
+                let cur = self.source.current();
+                let all = self.source.all();
+                let others: Vec<_> = all.iter().filter(|s| s.session != cur.session).collect();
+                let (session, serial) = if !others.is_empty() && self.rng.bool() {
+                    let s = self.rng.pick(&others);
+                    (s.session, s.serial)
+                } else {
+                    let mut s = self.rng.next_u32() as u16;
+                    while self.source.session_used(s) {
+                        s = s.wrapping_add(1);
+                    }
+                    (s, if self.rng.bool() { cur.serial } else { self.rng.next_u32() })
+                };
+                (Some(State::from_parts(session, Serial::from(serial))), self.junk())
+            }
+            ConnKind::NoState => (None, self.junk()),
+        };
+        self.cdata = data;
+        self.cdata_version = neg;
+        let (c_end, mb_c) = tokio::io::duplex(self.cfg.c_buf);
+        let (mb_s, s_end) = tokio::io::duplex(self.cfg.s_buf);
+        let tap = Arc::new(Mutex::new(TapLog::default()));
+        let mb = tokio::spawn(Middlebox::new(mb_c, mb_s, cap, tap.clone()));
+        let _ = self.conn_tx.send(ServerSock::new(s_end, self.server_updates.clone()));
+        let client = Client::with_initial_version(v_c, c_end, Target::default(), state);
+        self.trace.push(format!(
+            "connect {} client-version={} old-cache-cap={} state={} data={} items",
+            kind.name(), v_c, cap, Self::state_str(state), self.cdata.len()
+        ));
+        self.ctx.obs(&format!("connect_{}", kind.name()), 1);
+        self.conn = Some(Conn { client, tap, mb, kind, v_c, cap, broken: false, ok_steps: 0 });
+        for _ in 0..self.rng.below(3) {
+            tokio::task::yield_now().await;
+        }
+    }
+
+    /// Runs one `Client::step()`; returns the result and the source-side
+    /// observation taken the moment the step returned.
+    async fn raw_step(&mut self) -> (StepResult, StepObs) {
+        let conn = self.conn.as_mut().unwrap();
+        {
+            let mut t = conn.tap.lock().unwrap();
+            let partial = t.partial_writes;
+            *t = TapLog::default();
+            t.partial_writes = partial;
+        }
+        self.source.begin_step();
+        self.server_updates.lock().unwrap().clear();
+        let r = tokio::time::timeout(STEP_GUARD, conn.client.step()).await;
+        let obs = self.source.step_obs();
+        let r = match r {
+            Err(_) => StepResult::Stalled,
+            Ok(Err(e)) => StepResult::Err(format!("{:?}: {}", e.kind(), e)),
+            Ok(Ok(())) => StepResult::Ok,
+        };
+        (r, obs)
+    }
+
+    async fn step(&mut self, updater: Option<(u8, bool, u8)>) {
+        if self.conn.as_ref().map(|c| c.broken).unwrap_or(true) {
+            // a failed step ends a connection (as `Client::run` does)
+            let (kind, v_c, cap) = match &self.conn {
+                Some(c) => (pick_conn_kind(&mut self.rng), c.v_c, c.cap),
+                None => (self.cfg.first_kind, self.cfg.v_c, self.cfg.cap),
+            };
+            self.connect(kind, v_c, cap).await;
+        }
+        let mut handle = None;
+        if let Some((yields, notify, changes)) = updater {
+            let cur = self.source.current();
+            let data = next_data(&cur.data, changes, &mut self.rng, &self.uni);
+            let what = Self::describe_change(&cur.data, &data);
+            let snap = self.new_snap(data, false, false);
+            self.trace.push(format!(
+                "updater armed: {} scheduler rounds after the response starts -> {}:{} ({}; timing {:?}){}",
+                yields, snap.session, snap.serial, what, snap.timing, if notify { " + notify" } else { "" }
+            ));
+            let src = self.source.clone();
+            let mut ntf = self.notify.clone();
+            let trigger = self.source.arm();
+            handle = Some(tokio::spawn(async move {
+                // wait for the server to start its response, then let the
+                // other tasks run `yields` scheduler rounds
+                trigger.notified().await;
+                for _ in 0..yields {
+                    tokio::task::yield_now().await;
+                }
+                let during = src.commit(snap, false);
+                if notify {
+                    ntf.notify();
+                }
+                during
+            }));
+        }
+        self.steps += 1;
+        let (res, obs) = self.raw_step().await;
+        let mut udr_hit = false;
+        if let Some(h) = handle {
+            self.source.disarm();
+            udr_hit = h.await.unwrap_or(false);
+            self.since_step.push(if udr_hit { "D!" } else { "D" });
+        }
+        match res {
+            StepResult::Ok => {
+                self.ok_steps += 1;
+                self.check_step(&obs, udr_hit);
+                if let Some(c) = self.conn.as_mut() {
+                    c.ok_steps += 1;
+                }
+            }
+            StepResult::Err(text) => {
+                self.aborted += 1;
+                let conn = self.conn.as_mut().unwrap();
+                conn.broken = true;
+                let tap = conn.tap.lock().unwrap().clone();
+                let class = abort_class(&text);
+                self.ctx.obs("aborted_steps", 1);
+                self.ctx.obs(&format!("aborted:{}", class), 1);
+                if tap.notifies > 0 {
+                    self.ctx.obs("aborted_steps_with_serial_notify_in_the_way", 1);
+                }
+                self.trace.push(format!("step -> Err({}) [notify pdus seen {}, server errors {:?}]", text, tap.notifies, tap.server_errors));
+                if self.ctx.wants_sample("aborted-step") {
+                    let v = json!({"history": cfg_json(self.cfg), "trace": self.trace.clone()});
+                    self.ctx.sample("aborted-step", || v);
+                }
+            }
+            StepResult::Stalled => {
+                self.aborted += 1;
+                self.conn.as_mut().unwrap().broken = true;
+                self.ctx.obs("aborted_steps", 1);
+                self.ctx.obs("stalled_steps", 1);
+                self.trace.push("step -> stalled (virtual-time guard fired)".into());
+            }
+        }
+        self.since_step.clear();
+    }
+
+    fn violation(&mut self, sig: &str, desc: &str, extra: Value) {
+        let detail = json!({
+            "history": cfg_json(self.cfg),
+            "trace": self.trace.clone(),
+            "failing_step": extra,
+        });
+        self.ctx.violation(sig, desc, detail);
+        self.dead = true;
+    }
+
+    fn check_step(&mut self, obs: &StepObs, udr_hit: bool) {
+        let conn = self.conn.as_mut().unwrap();
+        let applied: Vec<Applied> = std::mem::take(&mut conn.client.target_mut().applied);
+        let tap = conn.tap.lock().unwrap().clone();
+        let cstate = conn.client.state();
+        let kind = conn.kind;
+        let first_on_conn = conn.ok_steps == 0;
+        if tap.desync {
+            self.ctx.notes.push("C06: the tap lost PDU framing on a completed step; step not evaluated".into());
+            self.dead = true;
+            return;
+        }
+        let eod: Eod = match tap.eods.last() {
+            Some(e) => e.clone(),
+            None => {
+                self.ctx.notes.push("C06: a step completed without an End of Data PDU crossing the tap; step not evaluated".into());
+                self.dead = true;
+                return;
+            }
+        };
+        self.ctx.eval();
+        let ver = eod.version;
+        // ---- replay the target's log on the previous data
+        let prev = self.cdata.clone();
+        let mut got = prev.clone();
+        let mut redundant_announce = 0u64;
+        let mut redundant_withdraw = 0u64;
+        let mut n_items = 0usize;
+        let mut any_reset = false;
+        for a in &applied {
+            if a.reset {
+                got = Data::default();
+                any_reset = true;
+            }
+            for (action, payload) in &a.items {
+                n_items += 1;
+                let item: Item = from_lib(payload);
+                let announce = match action {
+                    Action::Announce => true,
+                    Action::Withdraw => false,
+                };
+                if !got.apply(announce, &item) {
+                    if announce {
+                        redundant_announce += 1;
+                    } else {
+                        redundant_withdraw += 1;
+                    }
+                }
+            }
+        }
+        let fallback = tap.cache_resets > 0;
+        let resp = if any_reset {
+            if fallback { "fallback-reset" } else { "reset" }
+        } else {
+            "serial"
+        };
+        let states = obs.states.clone();
+        let step_desc = |applied: &[Applied]| -> Value {
+            let mut log_text: Vec<String> = Vec::new();
+            for a in applied {
+                log_text.push(format!("apply(reset={}, timing=({},{},{}))", a.reset, a.timing.refresh, a.timing.retry, a.timing.expire));
+                for (action, payload) in a.items.iter().take(400) {
+                    log_text.push(format!("{} {}", if matches!(action, Action::Announce) { "announce" } else { "withdraw" }, render_item(&from_lib(payload))));
+                }
+            }
+            json!({
+                "negotiated_version": ver,
+                "response": resp,
+                "end_of_data": {"session": eod.session, "serial": eod.serial, "timing": format!("{:?}", eod.timing)},
+                "client_state_after": Self::state_str(cstate),
+                "source_states_during_step": states.iter().map(|s| format!("{}:{}", s.0, s.1)).collect::<Vec<_>>(),
+                "update_during_response": udr_hit,
+                "target_log": log_text,
+                "previous_data": prev.render(),
+            })
+        };
+        // ---- the snapshot named by End of Data
+        let snap = match self.source.lookup(eod.session, eod.serial) {
+            Some(s) => s,
+            None => {
+                self.violation(
+                    "C06:end-of-data-names-state-the-source-never-reported",
+                    &format!("End of Data names {}:{} but the source never reported that state", eod.session, eod.serial),
+                    step_desc(&applied),
+                );
+                return;
+            }
+        };
+        let want = snap.data.restrict(ver);
+        if got != want {
+            let class_list = got.diff_classes(&want);
+            let classes = class_list.join("+");
+            // signature: payload types affected (not the missing/extra detail,
+            // which would fan one defect out over dozens of signatures)
+            let mut types: Vec<&str> = class_list.iter().map(|c| c.split('-').next().unwrap_or(c)).collect();
+            types.dedup();
+            let types = types.join("+");
+            let mut d = step_desc(&applied);
+            d["replayed_client_data"] = got.render();
+            d["source_snapshot_restricted"] = want.render();
+            self.violation(
+                &format!("C06:client-data-differs-from-source-snapshot:v{}:{}:{}", ver, resp, types),
+                &format!(
+                    "after a completed {} step (version {}) the target's log applied to the previous data differs from the source snapshot {}:{} ({})",
+                    resp, ver, eod.session, eod.serial, classes
+                ),
+                d,
+            );
+            self.cdata = got;
+            return;
+        }
+        // ---- stored state
+        let state_ok = match cstate {
+            Some(s) => s.session() == eod.session && u32::from(s.serial()) == eod.serial,
+            None => false,
+        };
+        if !state_ok {
+            self.violation(
+                &format!("C06:client-state-differs-from-end-of-data:{}", resp),
+                &format!("Client::state() is {} after a completed step whose End of Data named {}:{}", Self::state_str(cstate), eod.session, eod.serial),
+                step_desc(&applied),
+            );
+            self.cdata = got;
+            return;
+        }
+        // ---- timing (version 1 and up)
+        if ver >= 1 {
+            if let Some(a) = applied.last() {
+                let t = (a.timing.refresh, a.timing.retry, a.timing.expire);
+                let mut acceptable: Vec<TimingT> = vec![snap.timing];
+                // the source's timing while the exchange ran (it may have moved
+                // on to a newer state before End of Data was written)
+                for (se, sn) in &obs.states {
+                    if let Some(s) = self.source.lookup(*se, *sn) {
+                        acceptable.push(s.timing);
+                    }
+                }
+                if !acceptable.contains(&t) {
+                    let mut d = step_desc(&applied);
+                    d["timing_handed_to_target"] = json!(format!("{:?}", t));
+                    d["source_timing"] = json!(format!("{:?}", acceptable));
+                    self.violation(
+                        &format!("C06:timing-differs-from-source:v{}:{}", ver, resp),
+                        &format!("version {}: timing handed to the target {:?} is not the source's {:?}", ver, t, snap.timing),
+                        d,
+                    );
+                    self.cdata = got;
+                    return;
+                }
+                if t != snap.timing {
+                    // observation, not a verdict: the server reads the
+                    // source's timing when it writes End of Data, i.e. possibly
+                    // after the source moved on from the state it names
+                    self.ctx.obs("timing_of_newer_state_than_end_of_data", 1);
+                    if self.ctx.wants_sample("timing-of-newer-state") {
+                        let v = json!({
+                            "history": cfg_json(self.cfg),
+                            "trace": self.trace.clone(),
+                            "end_of_data_names": format!("{}:{}", eod.session, eod.serial),
+                            "timing_of_that_state": format!("{:?}", snap.timing),
+                            "timing_handed_to_target": format!("{:?}", t),
+                            "source_states_during_step": states.iter().map(|s| format!("{}:{}", s.0, s.1)).collect::<Vec<_>>(),
+                        });
+                        self.ctx.sample("timing-of-newer-state", || v);
+                    }
+                }
+            }
+        }
+        // ---- accounting
+        let changed_data = got != prev;
+        self.cdata = got;
+        self.cdata_version = ver;
+        let ctx = &mut *self.ctx;
+        ctx.obs(&format!("completed_steps_v{}", ver), 1);
+        ctx.obs(&format!("response_{}", resp.replace('-', "_")), 1);
+        if applied.len() != 1 {
+            ctx.obs("steps_with_other_than_one_apply", 1);
+        }
+        if tap.downgrades > 0 {
+            ctx.obs("downgrades", 1);
+            ctx.obs(&format!("downgrade_to_v{}", ver), 1);
+        }
+        if udr_hit {
+            ctx.obs("update_during_response_hits", 1);
+            if (snap.session, snap.serial) != (self.source.current().session, self.source.current().serial) {
+                ctx.obs("update_during_response_hits_where_end_of_data_names_the_older_state", 1);
+            }
+        }
+        if redundant_announce > 0 {
+            ctx.obs("steps_with_redundant_announce", 1);
+        }
+        if redundant_withdraw > 0 {
+            ctx.obs("steps_with_withdraw_of_absent_item", 1);
+        }
+        if tap.notifies > 0 {
+            ctx.obs("completed_steps_started_by_serial_notify", 1);
+        }
+        if tap.partial_writes > 0 {
+            ctx.obs("steps_with_suspended_transfer", 1);
+        }
+        ctx.obs_max("items_in_one_response", n_items as u64);
+        ctx.obs_max("bytes_in_one_response", tap.bytes_to_client);
+        let wrap = self.wrapped;
+        if wrap {
+            ctx.obs("completed_steps_after_serial_wrap", 1);
+        }
+        let trivial = resp == "serial" && n_items == 0;
+        if trivial {
+            ctx.obs("empty_diff_steps", 1);
+        }
+        self.trace.push(format!(
+            "step -> Ok v{} {} eod={}:{} items={} data={} {}{}{}",
+            ver, resp, eod.session, eod.serial, n_items, self.cdata.len(),
+            if tap.downgrades > 0 { "downgraded " } else { "" },
+            if udr_hit { "update-during-response " } else { "" },
+            if fallback { "after-cache-reset" } else { "" },
+        ));
+        if !trivial {
+            let win = match self.source.window() {
+                Window::Never => "never",
+                Window::Last(_) => "last-k",
+                Window::Unbounded => "all",
+            };
+            let conn_class = if first_on_conn { kind.name() } else { "same-conn" };
+            ctx.sig(&format!(
+                "A v{} {} win={} conn={} downgrade={} udr={} wrap={} diff-offered={}",
+                ver, resp, win, conn_class, tap.downgrades > 0, udr_hit, wrap, obs.diff_some > 0
+            ));
+            let cls = |add: bool, rem: bool| match (add, rem) {
+                (false, false) => '.',
+                (true, false) => '+',
+                (false, true) => '-',
+                (true, true) => '*',
+            };
+            let (mut oa, mut or, mut ka, mut kr, mut aa, mut ar) = (false, false, false, false, false, false);
+            for a in &applied {
+                for (action, p) in &a.items {
+                    let ann = matches!(action, Action::Announce);
+                    match p {
+                        Payload::Origin(_) => if ann { oa = true } else { or = true },
+                        Payload::RouterKey(_) => if ann { ka = true } else { kr = true },
+                        Payload::Aspa(_) => if ann { aa = true } else { ar = true },
+                    }
+                }
+            }
+            ctx.sig(&format!(
+                "B v{} {} style={:?} origins{} keys{} aspas{} changed={}",
+                ver, resp, self.cfg.style, cls(oa, or), cls(ka, kr), cls(aa, ar), changed_data
+            ));
+            let bc = |b: usize| match b {
+                1 => "1",
+                2..=7 => "2-7",
+                8..=15 => "8-15",
+                16..=63 => "16-63",
+                64..=4095 => "64+",
+                _ => "4096",
+            };
+            let ic = match n_items {
+                0 => "0",
+                1..=4 => "1-4",
+                5..=16 => "5-16",
+                _ => "17+",
+            };
+            ctx.sig(&format!("D v{} {} client-pipe={} server-pipe={} items={}", ver, resp, bc(self.cfg.c_buf), bc(self.cfg.s_buf), ic));
+            let n = self.since_step.len();
+            let pre: Vec<&str> = self.since_step[n.saturating_sub(2)..].to_vec();
+            ctx.sig(&format!("C v{} {} after=[{}]", ver, resp, pre.join(",")));
+        }
+        // samples (literal histories with what was observed)
+        let kind_key = if udr_hit {
+            "update-during-response"
+        } else if tap.downgrades > 0 {
+            "downgrade"
+        } else if fallback {
+            "fallback-to-reset"
+        } else if wrap && resp == "serial" {
+            "serial-after-wrap"
+        } else if resp == "serial" && !trivial {
+            "serial"
+        } else {
+            "reset"
+        };
+        if ctx.wants_sample(kind_key) && !trivial {
+            let v = json!({"history": cfg_json(self.cfg), "trace": self.trace.clone()});
+            ctx.sample(kind_key, || v);
+        }
+    }
+
+    async fn run_ops(&mut self) {
+        let ops = self.cfg.ops.clone();
+        for op in &ops {
+            if self.dead {
+                break;
+            }
+            if !matches!(op, Op::Step | Op::UpdateDuringResponse { .. }) {
+                self.since_step.push(op.kind());
+            }
+            match op {
+                Op::Update { changes } => self.do_update(*changes, false, false, false),
+                Op::NewSession { keep_data } => self.do_update(3, true, *keep_data, false),
+                Op::SerialJump => self.do_update(2, false, false, true),
+                Op::Notify { settle } => {
+                    self.notify.notify();
+                    self.trace.push("notify".into());
+                    for _ in 0..*settle {
+                        tokio::task::yield_now().await;
+                    }
+                }
+                Op::Reconnect { kind, v_c, cap } => self.connect(*kind, *v_c, *cap).await,
+                Op::Step => self.step(None).await,
+                Op::UpdateDuringResponse { yields, notify, changes } => self.step(Some((*yields, *notify, *changes))).await,
+            }
+        }
+    }
+}
+
+/// Stable class of a step error for the evidence counters: numbers are
+/// replaced (after a cancelled partial read the client sees arbitrary PDU
+/// types / error codes), except PDU type 0 (a Serial Notify in the way).
+fn abort_class(text: &str) -> String {
+    if text.ends_with("unexpected PDU 0") {
+        return "unexpected PDU 0 (Serial Notify where a response was expected)".into();
+    }
+    let mut out = String::new();
+    let mut in_num = false;
+    for ch in text.chars().take(80) {
+        if ch.is_ascii_digit() {
+            if !in_num {
+                out.push('N');
+            }
+            in_num = true;
+        } else {
+            in_num = false;
+            out.push(ch);
+        }
+    }
+    out
+}
+
+fn rng_keep(rng: &mut Rng) -> bool {
+    rng.chance(3, 5)
+}
+
+struct HistStats {
+    steps: u64,
+    ok: u64,
+}
+
+fn run_history(ctx: &mut Ctx, cfg: &Cfg) -> HistStats {
+    let rt = tokio::runtime::Builder::new_current_thread()
+        .enable_time()
+        .start_paused(true)
+        .build()
+        .expect("tokio runtime");
+    let stats = rt.block_on(async {
+        let mut rng = Rng::new(cfg.seed ^ 0x5EED_C06);
+        let uni = gen_universe(&mut rng, cfg.light);
+        let first_data = next_data(&Data::default(), rng.below(if cfg.light { 5 } else { 9 }) as u8, &mut rng, &uni);
+        let first = Snap::new(cfg.first_session, cfg.first_serial, gen_timing(&mut rng), first_data, &mut rng);
+        let source = Source::new(first, cfg.window, cfg.style, cfg.aspa_wd_with_providers, Rng::new(cfg.seed ^ 0xD1FF));
+        let (conn_tx, conn_rx) = unbounded_channel();
+        let notify = NotifySender::new();
+        let server = Server::new(Listener(conn_rx), notify.clone(), source.clone());
+        let server_task = tokio::spawn(server.run());
+        let mut d = Driver {
+            ctx,
+            cfg,
+            rng,
+            uni,
+            source,
+            notify,
+            conn_tx,
+            server_updates: Arc::new(Mutex::new(Vec::new())),
+            conn: None,
+            cdata: Data::default(),
+            cdata_version: 2,
+            trace: Vec::new(),
+            since_step: Vec::new(),
+            steps: 0,
+            ok_steps: 0,
+            aborted: 0,
+            wrapped: false,
+            dead: false,
+        };
+        for _ in 0..cfg.pre_updates {
+            let n = d.rng.range(1, 5) as u8;
+            d.do_update(n, false, false, false);
+        }
+        d.run_ops().await;
+        for f in d.source.self_check_failures() {
+            d.ctx.notes.push(format!("C06 HARNESS BUG: source self check failed: {}", f));
+        }
+        if let Some(c) = d.conn.take() {
+            c.mb.abort();
+        }
+        server_task.abort();
+        HistStats { steps: d.steps, ok: d.ok_steps }
+    });
+    drop(rt);
+    stats
+}
 
 pub fn run(ctx: &mut Ctx) {
-    ctx.notes.push("C06: monitor not built yet".into());
+    let miri_total = if ctx.tier == Tier::Quick { 16 } else { 48 };
+    let n = ctx.stage_budget((192_000, 4_800_000), 240_000, miri_total, 0);
+    let light = ctx.stage == Stage::Miri;
+    let max_ops: u64 = if light { 5 } else { 14 };
+    let mut rng = ctx.rng("histories");
+    let mut steps = 0u64;
+    let mut ok = 0u64;
+    let mut histories = 0u64;
+    for i in 0..n {
+        let seed = rng.next_u64();
+        let cfg = gen_cfg(seed, max_ops, light);
+        if i % 64 == 0 {
+            ctx.breadcrumb(&format!("history {} seed {}: {}", i, seed, cfg_json(&cfg)));
+        }
+        take_last_panic();
+        let before = ctx.violation_count();
+        let res = crate::core::catch(|| run_history(ctx, &cfg));
+        match res {
+            Ok(s) => {
+                steps += s.steps;
+                ok += s.ok;
+            }
+            Err(text) => {
+                let sig = format!("C06:panic:history:{}", panic_location(&text));
+                ctx.violation(&sig, &format!("panic while running a history: {}", text), cfg_json(&cfg));
+            }
+        }
+        // a panic inside a spawned task (server connection) is swallowed by
+        // tokio; the hook still remembers it
+        if let Some(text) = take_last_panic() {
+            if ctx.violation_count() == before {
+                let sig = format!("C06:panic:task:{}", panic_location(&text));
+                ctx.violation(&sig, &format!("panic inside a runtime task: {}", text), cfg_json(&cfg));
+            }
+        }
+        histories += 1;
+    }
+    ctx.obs("histories", histories);
+    ctx.obs("steps_attempted", steps);
+    ctx.obs("steps_completed", ok);
+    if steps > 0 && ok * 2 < steps {
+        ctx.notes.push(format!(
+            "C06: only {} of {} steps completed; the property is conditional on completion, so this run observed too little",
+            ok, steps
+        ));
+    }
 }
